@@ -153,6 +153,19 @@ def check(ctx, run):
     run.require("C11.R1", 9)
     run.require("C11.R2", 9)
     run.require("C11.R7", 4)
+    run.require("C11.R8", 1)
+    # the Heston variance IS the CIR series (same generator, called once), so it inherits the certificate; the rough-Bergomi variance is
+    # init * exp(.) (R4)
+    hres = results.get(S + "heston.generate_heston", [])
+    cir_calls = [e for r_ in hres for e in r_["events"] if e["kind"] == "call" and e["callee"] == S + "cir.generate_cir"]
+    okh = bool(hres) and all(len([e for e in r_["events"] if e["kind"] == "call" and e["callee"] == S + "cir.generate_cir"]) == 1 for r_ in hres)
+    run.oblige("C11.R8", "generate_heston: the variance output is one generate_cir series", okh, f"{len(cir_calls)} call(s)")
+    if not okh:
+        fi_h = prog.functions[S + "heston.generate_heston"]
+        run.fail(Finding("C11.R8", fi_h.qualname, "variance is not produced by exactly one generate_cir call", "the Heston variance must be the quadratic-exponential CIR series (non-negative by C11.R8)",
+                         file=str(prog.modules[fi_h.module].path), line=fi_h.node.lineno))
+    from .c10 import cir_variance_nonnegative
+    cir_variance_nonnegative(ctx, run, [r for r in interp.explore(prog.functions[S + "cir.generate_cir"], [], dict(E.GEN_KW, **{k: v for k, v in E.GENERATORS[S + "cir.generate_cir"].items()}), max_paths=200)], "C11.R8")
     for q, res in results.items():
         fi = prog.functions[q]
         short = q.rsplit(".", 1)[-1]
